@@ -8,7 +8,9 @@ RULE = ("MC: TLC proves on 1-2 flows, every rule set over their packets, a 3-val
         "stale) lets a tracked flow pass only if the current rules allow its original direction, forgets it otherwise, and that a "
         "reload with unchanged rules cuts nothing. R: one replayed step per edge on a real Interface.reloadFirewall / "
         "Firewall.Drop with real YAML (model wrap mapped to the real 16-bit wrap); at every unchanged-rules reload edge the code is "
-        "compared with itself just before / just after. T: random histories with reloads validated by TLC against the reference")
+        "compared with itself just before / just after. T: random histories with reloads validated by TLC against the reference. "
+        "Reload alphabet: rule sets; configurations [default_local_cidr_any, rule text, certificate with / without the node's unsafe "
+        "network] with flows towards an own and an unsafe-network address")
 ASSUMPTIONS = [
     "decided for the default single-routine configuration (routine-local conntrack cache off)",
     "idle expiry is C18's statement: here an established flow never expires in the reference (a packet the code refuses because "
@@ -22,9 +24,12 @@ ASSUMPTIONS = [
     "in-package (the code only compares versions for equality and the counter with zero)",
     "reloads that change what unchanged rule text means are part of the reload alphabet: firewall.default_local_cidr_any is "
     "flipped both ways under rules without local_cidr, with a certificate that has an unsafe network and flows to an own and to "
-    "an unsafe-network address (Conntrack.tla ReloadCfg / EffSem); the flows are judged by the effective rules",
-    "a change of the certificate's unsafe networks is not varied: it cannot change what a rule covers for an address that stays "
-    "routable (a rule without local_cidr only distinguishes 'no unsafe network' from 'some'), and routability is C17's subject",
+    "an unsafe-network address (Conntrack.tla ReloadCfg / EffSemU); the flows are judged by the effective rules",
+    "a change of the node's own unsafe networks is part of the reload alphabet (the quantifier names it): the certificate is renewed "
+    "without / again with the unsafe network and reloadFirewall rebuilds the firewall from the new certificate with the conntrack "
+    "table carried over, the firewall section being byte-identical or changed as well (Conntrack.tla SemCfgsU / EffSemU). Without "
+    "the unsafe network nothing to or from its addresses is allowed by the current rules, whatever their text says; a flow towards "
+    "such an address must not be honoured, and once a packet of it was refused it is forgotten like any other refused flow",
 ]
 
 
@@ -32,7 +37,7 @@ def run(ctx):
     rnd = random.Random(ctx.seed)
     plan = {'graphs': [], 'groups': [], 'traces': 30 if ctx.quick else 200, 'events': 50 if ctx.quick else 80, 'flows': 6,
             'reloads': True}
-    ct.build_graphs(ctx, ['C19_1', 'C19_2', 'C19_sem'] if ctx.quick else ['C19_1', 'C19_2', 'C19_semx', 'C19_1t'], plan, rnd, max_len=40)
+    ct.build_graphs(ctx, ['C19_1', 'C19_2', 'C19_semu'] if ctx.quick else ['C19_1', 'C19_2', 'C19_semux', 'C19_1t'], plan, rnd, max_len=40)
     ct.aswritten(ctx, 'MC_Conntrack_C19_aswritten.cfg', 'SameReloadKeeps')
     if not ctx.quick:
         ctx.tlc('Conntrack', 'MC_Conntrack_C19_2t.cfg', timeout=1500)
@@ -44,9 +49,13 @@ def run(ctx):
     res = ctx.gotest('.', 'TestVerif_C19', also=('ct',))
     ctx.take_mismatches(res)
     ct.validate(ctx, res, plan, 'C19', idle_matters=False)
-    ctx.require_actions('Pkt', 'Reload', 'ReloadCfg', 'R:tour', 'R:twin', 'R:twin-option-flip', 'R:map:distinct', 'R:map:proto-only', 'R:map:unsafe-local',
-                        'T:Reload-option-flip', 'T:Pkt', 'T:Reload', 'T:Reload-same',
-                        'T:Reload-noop', 'T:Reload-wrap', 'T:pass', 'T:drop')
+    if not ctx.violations:      # a violation ends its history early; vacuity only matters for a pass
+        ctx.require_actions('Pkt', 'Reload', 'ReloadCfg', 'R:tour', 'R:twin', 'R:twin-option-flip', 'R:map:distinct', 'R:map:proto-only', 'R:map:unsafe-local',
+                            'T:Reload-option-flip', 'T:Pkt', 'T:Reload', 'T:Reload-same',
+                            'T:Reload-noop', 'T:Reload-wrap', 'T:pass', 'T:drop',
+                            # reloads that change the node's own unsafe networks (certificate renewed without / with them)
+                            'R:reload:cert-unsafe-networks-only', 'R:reload:cert-unsafe-networks+section',
+                            'R:reload:default_local_cidr_any', 'R:reload:rules', 'T:Reload-cert-unsafe')
     left = ctx.actions.get('R:left-tour', 0)
     ctx.extra['tours_left_early'] = left
     if not ctx.violations and left * 5 > ctx.actions.get('R:tour', 1):
